@@ -475,13 +475,25 @@ def _materialise(interp, v: Any, what: str) -> list:
     return interp.drain(v)
 
 
+def _copy_event(interp, what: str, src: Any) -> None:
+    n = len(src.items) if isinstance(src, (AList, ASet)) else len(src.pairs) if isinstance(src, ADict) else len(src) if isinstance(src, tuple) else None
+    if n is None and isinstance(src, ExtObj) and src.kind == "dict_view":
+        n = len(src.attrs["d"].pairs)
+    if n is not None:
+        interp.emit("copy", what=what, size=n)
+
+
 def _b_list(interp, args, kwargs):
+    if args:
+        _copy_event(interp, "list(container)", args[0])
     out = AList(_materialise(interp, args[0], "list") if args else [])
     out.shared = interp.init_depth > 0
     return out
 
 
 def _b_tuple(interp, args, kwargs):
+    if args:
+        _copy_event(interp, "tuple(container)", args[0])
     return tuple(_materialise(interp, args[0], "tuple")) if args else ()
 
 
@@ -501,6 +513,7 @@ def _b_dict(interp, args, kwargs, kind="dict"):
     d.shared = interp.init_depth > 0
     if args:
         src = args[0]
+        _copy_event(interp, "dict(container)", src)
         if isinstance(src, ADict):
             for k, v in src.pairs:
                 d.pairs.append([k, v])
@@ -2103,6 +2116,7 @@ def _list_method(interp, lst: AList, name: str, args: list, kwargs: dict) -> Any
         items.insert(args[0], args[1])
         return None
     if name == "copy":
+        interp.emit("copy", what="list.copy()", size=len(items))
         return AList(list(items), kind=lst.kind, maxlen=lst.maxlen)
     if name == "index":
         for i, x in enumerate(items):
@@ -2212,6 +2226,7 @@ def _dict_method(interp, d: ADict, name: str, args: list, kwargs: dict) -> Any:
         d.pairs.clear()
         return None
     if name == "copy":
+        interp.emit("copy", what="dict.copy()", size=len(d.pairs))
         return ADict([[k, v] for k, v in d.pairs], kind=d.kind)
     if name == "__contains__":
         return dict_find(interp, d, args[0]) is not None
@@ -2269,6 +2284,7 @@ def _set_method(interp, s: ASet, name: str, args: list, kwargs: dict) -> Any:
     if name == "isdisjoint":
         return not interp.binop(_ast.BitAnd, s, as_set(args[0])).items
     if name == "copy":
+        interp.emit("copy", what="set.copy()", size=len(s.items))
         return ASet(list(s.items), frozen=s.frozen)
     if name == "clear" and not s.frozen:
         _mut(interp, s, "clear")
